@@ -349,7 +349,14 @@ def find_irrelevant_type(etype: tp.Type, types: List[tp.Type],
         for t in relevant_types
         if isinstance(t, tp.ParameterizedType)
     }
-    available_types = [t for t in types if t not in relevant_types]
+    # A ready-made type of the list may be related to `etype` although the
+    # searches above do not produce it, e.g., another instantiation of the
+    # same variant generic class (Function1<B, A> for Function1<A, B>).
+    available_types = [
+        t for t in types
+        if t not in relevant_types and (
+            isinstance(t, tp.AbstractType) or t.not_related(etype))
+    ]
     if not available_types:
         return None
     t = utils.random.choice(available_types)
